@@ -12,5 +12,6 @@ CONSTANTS
   AtomicNew = TRUE
   AtomicLine = TRUE
   ObjCid = TRUE
+  Sink <- KeepAll
 INVARIANTS TypeOK Unique AliasSame WholeLines OnePerCall CounterOk
 CHECK_DEADLOCK FALSE
